@@ -1,10 +1,10 @@
 ---------------------------- MODULE GenHistModel ----------------------------
 EXTENDS HistModel
 VARIABLE hist
-GInit == Init /\ hist = <<[name |-> "Init", poly |-> poly, method |-> method, edges |-> edges, density |-> density, n |-> nEntries]>>
+GInit == Init /\ hist = <<[name |-> "Init", poly |-> poly, method |-> method, edges |-> edges, density |-> density, n |-> nEntries, out |-> nOut]>>
 GNext == Next /\ hist' = Append(hist, act')
 GSpec == GInit /\ [][GNext]_<<vars, hist>>
 PathOut == PrintT(ToJson([h |-> hist, a |-> act', o |-> obs']))
 StateOut == PrintT(ToJson([sh |-> hist, ideal |-> Bins(method, poly, edges), exact |-> Bins("exact", poly, edges),
-                           poly |-> poly, edges |-> edges, n |-> nEntries, density |-> density, method |-> method]))
+                           poly |-> poly, edges |-> edges, n |-> nEntries, out |-> nOut, density |-> density, method |-> method]))
 =============================================================================
